@@ -45,7 +45,7 @@ def with_comments(p, salt):
     return "\n".join(lines) + "\n", n
 
 
-STRESS_REPL = ["kf(2, 3)", "(n + 1)", "g('a b', \"a b\")", "1.5e-3"]
+STRESS_REPL = ["kf(2, 3)", "(n + 1)", "g('a b', \"a b\")", "1.5e-3", "mod(k, 2) + 1"]
 
 
 def stressed_variants(p, limit):
@@ -72,6 +72,8 @@ def stressed_variants(p, limit):
             elif depth > 0 and t.isidentifier() and t.lower() not in ("kind", "len", "unit", "fmt", "file", "stat", "iostat", "err", "end", "status") \
                     and (j + 1 >= len(toks) or toks[j + 1][0] not in ("(", "=", "%")) and toks[j - 1][0] in ("(", ",", "=", ":"):
                 slots.append(j)
+            elif depth == 0 and j == len(toks) - 1 and j > 1 and t.isidentifier() and toks[j - 1][0] in (",", ")", "+", "-", "*", "/", "**"):
+                slots.append(j)       # a trailing operand outside brackets (computed GOTO index, last term of an expression)
         for n_, j in enumerate(slots[:limit]):
             new = list(toks)
             new[j] = (STRESS_REPL[(n_ + i) % len(STRESS_REPL)], toks[j][1])
@@ -211,7 +213,43 @@ def signature(prop, case, r, clause):
             tk = [t for _, t in lexer.toks(st)]
             if len(tk) >= 2 and tk[0].lower() == "procedure" and tk[1] not in ("(", "::", ",") and tk[1][:1].isalpha():
                 sig["procedure_stmt_without_module"] = True
+        if sig.get("procedure_stmt_without_module"):
+            # the known findings KF-C02-1 / KF-C17-1 are exactly: MODULE is printed in front of such a statement by the 2003 parser -
+            # with that word taken out again the law has to hold
+            sig["holds_once_the_invented_MODULE_is_removed"] = _holds_without_invented_module(prop, case)
     return sig
+
+
+def _strip_invented_module(src, out):
+    """Printed text with 'MODULE PROCEDURE names' turned back into 'PROCEDURE names' wherever the source has no MODULE there."""
+    bare = set()
+    for st in lexer.split_statements(src):
+        tk = [t for _, t in lexer.toks(st)]
+        if len(tk) >= 2 and tk[0].lower() == "procedure":
+            bare.add(tuple(x.lower() for x in tk[1:]))
+    lines = []
+    for ln in out.split("\n"):
+        tk = [t for _, t in lexer.toks(ln.strip())]
+        if len(tk) >= 3 and tk[0].lower() == "module" and tk[1].lower() == "procedure" and tuple(x.lower() for x in tk[2:]) in bare:
+            ln = ln.replace("MODULE PROCEDURE", "PROCEDURE", 1)
+        lines.append(ln)
+    return "\n".join(lines)
+
+
+def _one(case):
+    case = dict(case, want=("keeptext",))
+    return obs.observe(case)
+
+
+def _holds_without_invented_module(prop, case):
+    r = pmap(_one, [{"id": case["id"], "src": case["src"], "cfgs": [("f2003", True, False), ("f2008", True, False)]}], procs=1)[0]
+    t3, t8 = (run.get("text_full") for run in r["runs"])
+    if t3 is None or t8 is None:
+        return False
+    t3 = _strip_invented_module(case["src"], t3)
+    if prop == "C17":
+        return obs.tci(t3) == obs.tci(t8)
+    return lexer.program_tokens(t3) == lexer.program_tokens(case["src"])
 
 
 def explain(prop, case, r, clause):
